@@ -468,7 +468,8 @@ func (f ForkId) Match(ref map[*syntax.CallStm]syntax.CollectionIndex,
 							Source: src,
 						},
 					}
-					if src.CallMode() != result[i].Id.Mode() {
+					if m := result[i].Id.Mode(); src.CallMode() != m &&
+						m != syntax.ModeNullMapCall {
 						// Should not be possible - checked during static analysis.
 						panic(result[i].GoString() + " from " + j.Mode().String())
 					}
@@ -492,7 +493,8 @@ func (f ForkId) Match(ref map[*syntax.CallStm]syntax.CollectionIndex,
 									Source: src,
 								},
 							}
-							if src.CallMode() != result[i].Id.Mode() {
+							if m := result[i].Id.Mode(); src.CallMode() != m &&
+								m != syntax.ModeNullMapCall {
 								// Should not be possible - checked during static analysis.
 								panic(result[i].GoString() + " from " + j.Mode().String())
 							}
